@@ -19,7 +19,9 @@ exactly when an index is out of range; the model's swap is the identity in that 
 log records the indices, so "no panic" = "every logged index < min(len keys, len values)", which is
 what `C15_perm_pairing_prefix` proves (the driver renders a log with an out-of-range index as `panic`).
 
-Loops are structural or well-founded recursions (no fuel, no `partial`); thresholds are read from
+Each Go loop is one recursive function (structural or well-founded recursion: no fuel, nothing partial); the long body
+of doPivot_func is cut into consecutive phases (`choosePivot`, `partitionPhase`, `dupProbe1/2/3`, `dupPhase`,
+`protectLoop`, final swap) that are composed in `doPivot` in source order.  Thresholds are read from
 `Got.Generated.LitsSortx` (regenerated from the Go source on every check).
 -/
 namespace Got.Model.Sort
@@ -140,18 +142,21 @@ def heapSort (less : LessFn K V) (a b : Nat) (s : St K V) : St K V :=
 
 /-! ### medianOfThree_func -/
 
+/-- `if data.Less(i, j) { data.Swap(i, j) }` -/
+def condSwap (less : LessFn K V) (i j : Nat) (s : St K V) : St K V :=
+  let r := less s i j
+  let s := s.note i j r
+  if r then s.swap i j else s
+
+/-- ```
+if data.Less(m1, m0) { data.Swap(m1, m0) }
+if data.Less(m2, m1) { data.Swap(m2, m1); if data.Less(m1, m0) { data.Swap(m1, m0) } }
+``` -/
 def medianOfThree (less : LessFn K V) (m1 m0 m2 : Nat) (s : St K V) : St K V :=
-  let r := less s m1 m0
-  let s := s.note m1 m0 r
-  let s := if r then s.swap m1 m0 else s
+  let s := condSwap less m1 m0 s
   let r := less s m2 m1
   let s := s.note m2 m1 r
-  if r then
-    let s := s.swap m2 m1
-    let r := less s m1 m0
-    let s := s.note m1 m0 r
-    if r then s.swap m1 m0 else s
-  else s
+  if r then condSwap less m1 m0 (s.swap m2 m1) else s
 
 /-! ### doPivot_func -/
 
@@ -251,29 +256,40 @@ decreasing_by
   simp only [rb, ra] at *
   omega
 
-/-- the three duplicate probes; returns `(b, c, dups, state)`
+/-- first duplicate probe; returns `(c, dups, state)`
 ```
 dups := 0
 if !data.Less(pivot, hi-1) { data.Swap(c, hi-1); c++; dups++ }
+``` -/
+def dupProbe1 (less : LessFn K V) (pivot hi c : Nat) (s : St K V) : Nat × Nat × St K V :=
+  let r := less s pivot (hi - 1)
+  let s := s.note pivot (hi - 1) r
+  if !r then (c + 1, 1, s.swap c (hi - 1)) else (c, 0, s)
+
+/-- second duplicate probe; returns `(b, dups, state)`
+```
 if !data.Less(b-1, pivot) { b--; dups++ }
+``` -/
+def dupProbe2 (less : LessFn K V) (pivot b dups : Nat) (s : St K V) : Nat × Nat × St K V :=
+  let r := less s (b - 1) pivot
+  let s := s.note (b - 1) pivot r
+  if !r then (b - 1, dups + 1, s) else (b, dups, s)
+
+/-- third duplicate probe; returns `(b, dups, state)`
+```
 if !data.Less(m, pivot) { data.Swap(m, b-1); b--; dups++ }
 ``` -/
+def dupProbe3 (less : LessFn K V) (pivot m b dups : Nat) (s : St K V) : Nat × Nat × St K V :=
+  let r := less s m pivot
+  let s := s.note m pivot r
+  if !r then (b - 1, dups + 1, s.swap m (b - 1)) else (b, dups, s)
+
+/-- the three duplicate probes in sequence; returns `(b, c, dups, state)` -/
 def dupProbe (less : LessFn K V) (pivot hi m b c : Nat) (s : St K V) : Nat × Nat × Nat × St K V :=
-  let r1 := less s pivot (hi - 1)
-  let s1 := s.note pivot (hi - 1) r1
-  let s2 := if !r1 then s1.swap c (hi - 1) else s1
-  let c2 := if !r1 then c + 1 else c
-  let d2 := if !r1 then 1 else 0
-  let r2 := less s2 (b - 1) pivot
-  let s3 := s2.note (b - 1) pivot r2
-  let b3 := if !r2 then b - 1 else b
-  let d3 := if !r2 then d2 + 1 else d2
-  let r3 := less s3 m pivot
-  let s4 := s3.note m pivot r3
-  let s5 := if !r3 then s4.swap m (b3 - 1) else s4
-  let b5 := if !r3 then b3 - 1 else b3
-  let d5 := if !r3 then d3 + 1 else d3
-  (b5, c2, d5, s5)
+  let p1 := dupProbe1 less pivot hi c s
+  let p2 := dupProbe2 less pivot b p1.2.1 p1.2.2
+  let p3 := dupProbe3 less pivot m p2.1 p2.2.1 p2.2.2
+  (p3.1, p1.1, p3.2.1, p3.2.2)
 
 /-- the pivot selection: ninther for large ranges, then median of three; pivot ends at `lo` -/
 def choosePivot (less : LessFn K V) (lo hi : Nat) (s : St K V) : St K V :=
@@ -287,31 +303,49 @@ def choosePivot (less : LessFn K V) (lo hi : Nat) (s : St K V) : St K V :=
     else s
   medianOfThree less lo m (hi - 1) s
 
-/-- doPivot_func; returns `(midlo, midhi, state)` -/
-def doPivot (less : LessFn K V) (lo hi : Nat) (s : St K V) : Nat × Nat × St K V :=
-  let m := (lo + hi) / 2          -- int(uint(lo+hi) >> 1)
+/-- doPivot_func up to the end of the main partition loop; returns `(a, b, c, state)`
+```
+m := int(uint(lo+hi) >> 1); …choose pivot…; pivot := lo
+a, c := lo+1, hi-1
+for ; a < c && data.Less(a, pivot); a++ {}
+b := a
+for { … }
+``` -/
+def partitionPhase (less : LessFn K V) (lo hi : Nat) (s : St K V) : Nat × Nat × Nat × St K V :=
   let s := choosePivot less lo hi s
   let pivot := lo
-  let ra := scanUpLt less pivot (hi - 1) (lo + 1) s      -- a, c := lo+1, hi-1 ; first scan
-  let a := ra.1
-  let pl := partLoop less pivot a (hi - 1) ra.2          -- b := a ; main loop
-  let b := pl.1
-  let c := pl.2.1
-  let s := pl.2.2
+  let ra := scanUpLt less pivot (hi - 1) (lo + 1) s
+  let pl := partLoop less pivot ra.1 (hi - 1) ra.2
+  (ra.1, pl.1, pl.2.1, pl.2.2)
+
+/-- the decision whether to run the protect loop; returns `(b, c, protect, state)`
+```
+protect := hi-c < 5
+if !protect && hi-c < (hi-lo)/4 { …three probes…; protect = dups > 1 }
+``` -/
+def dupPhase (less : LessFn K V) (lo hi b c : Nat) (s : St K V) : Nat × Nat × Bool × St K V :=
+  let m := (lo + hi) / 2          -- int(uint(lo+hi) >> 1)
+  let pivot := lo
   let protect := decide (hi - c < thrProtect)
-  let dp :=
-    if !protect && decide (hi - c < (hi - lo) / divDups) then
-      let r := dupProbe less pivot hi m b c s
-      (r.1, r.2.1, decide (r.2.2.1 > 1), r.2.2.2)
-    else (b, c, protect, s)
-  let b := dp.1
-  let c := dp.2.1
-  let protect := dp.2.2.1
-  let s := dp.2.2.2
-  let pr := if protect then protectLoop less pivot a b s else (a, b, s)
+  if !protect && decide (hi - c < (hi - lo) / divDups) then
+    let r := dupProbe less pivot hi m b c s
+    (r.1, r.2.1, decide (r.2.2.1 > 1), r.2.2.2)
+  else (b, c, protect, s)
+
+/-- doPivot_func; returns `(midlo, midhi, state)`
+```
+…partitionPhase…; …dupPhase…
+if protect { …protectLoop… }
+data.Swap(pivot, b-1)
+return b - 1, c
+``` -/
+def doPivot (less : LessFn K V) (lo hi : Nat) (s : St K V) : Nat × Nat × St K V :=
+  let pivot := lo
+  let p := partitionPhase less lo hi s
+  let d := dupPhase less lo hi p.2.1 p.2.2.1 p.2.2.2
+  let pr := if d.2.2.1 then protectLoop less pivot p.1 d.1 d.2.2.2 else (p.1, d.1, d.2.2.2)
   let b := pr.2.1
-  let s := pr.2.2
-  (b - 1, c, s.swap pivot (b - 1))
+  (b - 1, d.2.1, pr.2.2.swap pivot (b - 1))
 
 /-! ### quickSort_func -/
 
@@ -344,6 +378,27 @@ def quickSort (less : LessFn K V) (a b : Nat) : Nat → St K V → St K V
       else
         quickSort less a mlo d (quickSort less mhi b d p.2.2)
     else smallSort less a b s
+
+/-- ghost-instrumented copy of `quickSort` (used only by `C15_depth`): additionally returns the length of the longest
+    chain of partition steps (loop iterations and nested calls alike, each consumes one unit of `maxDepth`) that
+    was executed before the range became small or heapSort_func took over. -/
+def quickSortLevels (less : LessFn K V) (a b : Nat) : Nat → St K V → St K V × Nat
+  | 0, s =>
+    (if b - a > thrInsertion then heapSort less a b s else smallSort less a b s, 0)
+  | d + 1, s =>
+    if b - a > thrInsertion then
+      let p := doPivot less a b s
+      let mlo := p.1
+      let mhi := p.2.1
+      if mlo - a < b - mhi then
+        let r1 := quickSortLevels less a mlo d p.2.2
+        let r2 := quickSortLevels less mhi b d r1.1
+        (r2.1, 1 + max r1.2 r2.2)
+      else
+        let r1 := quickSortLevels less mhi b d p.2.2
+        let r2 := quickSortLevels less a mlo d r1.1
+        (r2.1, 1 + max r1.2 r2.2)
+    else (smallSort less a b s, 0)
 
 /-! ### maxDepth, SliceBy -/
 
